@@ -475,6 +475,10 @@ func enumSpace() []enumCase {
 		} {
 			for hook := 0; hook < 10; hook++ {
 				cases = append(cases, enumCase{Data: true, HalfCut: true, Op0: op0, Prog1: prog, Hook: hook})
+				if op0.Kind == "write" {
+					// ... and a third client pushes the file's inode out of the cache meanwhile
+					cases = append(cases, enumCase{Data: true, HalfCut: true, Sweep: true, Op0: op0, Prog1: prog, Hook: hook})
+				}
 			}
 		}
 	}
